@@ -648,4 +648,37 @@ theorem connect_flows_are_the_model :
     Gen.MuxFacts.transportConnectFlow.all (fun (sc, eff) => transportConnectModelRow sc == eff) = true := by
   decide
 
+/-! ## raw versus framed: the two places that decide it, re-extracted -/
+
+def isRawWire : Wire → Bool
+  | .rawToken _ => true
+  | _ => false
+
+/-- `(*Conn).saslAuthenticate`: what is negotiated, which exchange is used (from `authWire`), and how the un-framed
+exchange ends on each failure — including the negative length rejected since C18-D30 -/
+def connSaslAuthenticateModelRow (sc : List String) : List String :=
+  let neg := "negotiate:saslHandshake"          -- the HANDSHAKE key: `negotiateVersion(saslHandshake, v0, v1)`
+  if cflag sc "negotiateFailed" then [neg, "return:error"]
+  else if !isRawWire (authWire (if cflag sc "handshakeWasV1" then 1 else 0) 0 []) then [neg, "framedExchange", "return:data,err"]
+  else
+    [neg, "rawLength", "rawWrite"] ++
+    (if cflag sc "writeFailed" then ["return:error"]
+     else ["rawFlush"] ++
+      (if cflag sc "flushFailed" then ["return:error"]
+       else ["rawReadLength"] ++
+        (if cflag sc "lengthReadFailed" || cflag sc "negativeLength" then ["return:error"]
+         else ["rawReadBody", "return:data,err"])))
+
+/-- `protocol.(*Conn).RoundTrip`: a fresh id, then the raw exchange exactly for a message that is a RawExchanger
+and says it is required (`Required` = "the handshake went out as v0", fact `transportAuthFramingByHandshake`) -/
+def protocolConnRoundTripModelRow (sc : List String) : List String :=
+  ["nextId"] ++ (if cflag sc "isPrepared" then ["prepare"] else []) ++
+  [if cflag sc "isRawExchanger" && isRawWire (authWire (if cflag sc "rawRequired" then 0 else 1) 0 []) then "rawExchange"
+   else "framedRoundTrip"]
+
+theorem framing_flows_are_the_model :
+    Gen.MuxFacts.connSaslAuthenticateFlow.all (fun (sc, eff) => connSaslAuthenticateModelRow sc == eff) = true ∧
+    Gen.MuxFacts.protocolConnRoundTripFlow.all (fun (sc, eff) => protocolConnRoundTripModelRow sc == eff) = true := by
+  decide
+
 end KV.C18
